@@ -71,8 +71,12 @@ static void monitor_wire(htp_connp_t *c, const hx_script *s, hx_obs *o) {
             hx_verdict_add("C06", "message_len_over_wire", "%s stream: start lines + header names and values + message lengths add up to %lld, but only %lld bytes were offered (some wire bytes are counted twice)",
                            d ? "response" : "request", (long long) used[d], (long long) offered[d]);
 }
+static size_t builder_bytes(bstr_builder_t *bb);
 static void monitor_limits(htp_connp_t *c) {
     size_t lim = c->cfg->field_limit_hard;
+    /* an unfinished header line of a multipart part is a line retained between calls like any other */
+    if (c->in_tx && c->in_tx->request_mpartp && builder_bytes(c->in_tx->request_mpartp->part_header_pieces) > lim)
+        hx_verdict_add("C10", "mpart_header_line_over_limit", "the unfinished header line of a multipart part holds %zu bytes > field_limit_hard %zu", builder_bytes(c->in_tx->request_mpartp->part_header_pieces), lim);
     if (c->in_buf && c->in_buf_size > lim)
         hx_verdict_add("C10", "in_buf_over_limit", "request line buffer holds %zu bytes > field_limit_hard %zu", c->in_buf_size, lim);
     if (c->out_buf && c->out_buf_size > lim)
